@@ -45,27 +45,46 @@ def split_by_property(tot, prop):
     return other
 
 
-def hist_check(prop, tier, configs, depth, rule, assumptions, level="model_checking", long_cfgs=None, long_writes=(), maxday=2, deep=None):
-    """shared driver of C05 C06 C07 C09: exhaustive history enumeration (+ optional straight-line crossings)."""
+DEADLINE = {"quick": 240, "thorough": 1500}
+
+
+def hist_check(prop, tier, configs, depth, rule, assumptions, level="model_checking", long_cfgs=None, long_writes=(), maxday=2, deep=None, extra_groups=()):
+    """shared driver of C05 C06 C07 C09: exhaustive history enumeration (+ optional straight-line crossings).
+    extra_groups: further (configs, depth) pairs. Every enumeration runs under a real-time deadline; a run that is cut reports
+    exhaustive:false and the depth it completed on every configuration (iterative deepening), and still exits 0."""
     t = vlib.Timer()
     exe = build()
-    args = shard_args("hist", configs, vlib.NCPU, ["--depth", depth, "--maxday", maxday])
+    dl = ["--deadline-s", DEADLINE[tier]]
+    groups = [(configs, depth)] + list(extra_groups)
+    args, kinds = [], []
+    for gi, (cf, dp) in enumerate(groups):
+        a = shard_args("hist", cf, vlib.NCPU, ["--depth", dp, "--maxday", maxday] + dl)
+        args += a; kinds += [("g%d" % gi, dp)] * len(a)
     if deep:
-        args += shard_args("hist", deep[0], vlib.NCPU, ["--depth", deep[1], "--maxday", 1, "--reduced", 1])
+        a = shard_args("hist", deep[0], vlib.NCPU, ["--depth", deep[1], "--maxday", 1, "--reduced", 1] + dl)
+        args += a; kinds += [("deep", deep[1])] * len(a)
     for w in long_writes:
         for c in (long_cfgs or []):
-            args.append(["--mode", "long", "--configs", c, "--writes", w])
-    parts = seqxrun.run_shards(exe, args, 3000)
+            args.append(["--mode", "long", "--configs", c, "--writes", w]); kinds.append(("long", w))
+    parts = seqxrun.run_shards(exe, args, DEADLINE[tier] + 900)
     fails = [p for p in parts if "_crash" in p or "_timeout" in p]
     good = [p for p in parts if p not in fails]
     tot = seqxrun.merge(good)
-    tot["bound"] = "histories <= %d ops over {W x up to 8 record kinds, D1..D%d, R} on %d configurations" % (depth, maxday, len(configs)) + \
+    done = {}
+    for p, (k, dp) in zip(parts, kinds):
+        if p in fails or k == "long":
+            continue
+        c = p.get("counters", {}).get("completed_depth_min", dp)
+        done[k] = min(done.get(k, dp), c)
+    tot["counters"].pop("completed_depth_min", None)
+    tot["bound"] = "; ".join("histories <= %d ops%s on %d configurations%s" % (dp, "" if gi == 0 else "", len(cf), "" if done.get("g%d" % gi, dp) == dp else " (deadline: completed <= %d on all of them)" % done.get("g%d" % gi)) for gi, (cf, dp) in enumerate(groups)) + \
+                   " over {W x up to 8 record kinds, D1..D%d, R}" % maxday + \
                    ("; %s consecutive rotating writes x 3 variants on %d configurations" % ("/".join(map(str, long_writes)), len(long_cfgs or [])) if long_writes else "") + \
-                   ("; histories <= %d ops over the reduced alphabet {W1, W(L), D1, R} on %d configurations" % (deep[1], len(deep[0])) if deep else "")
+                   ("; histories <= %d ops over the reduced alphabet {W1, W(L), D1, R} on %d configurations%s" % (deep[1], len(deep[0]), "" if done.get("deep", deep[1]) == deep[1] else " (deadline: completed <= %d)" % done.get("deep")) if deep else "")
     other = split_by_property(tot, prop)
     tot["distinct_outcomes"] = tot["states"]
     return seqxrun.finish(prop, tier, level, tot, t, rule, assumptions, fails,
-                          extra_cov={"configurations": len(configs), "violations_of_other_properties_seen": other})
+                          extra_cov={"configurations": sum(len(cf) for cf, _ in groups), "violations_of_other_properties_seen": other, "completed_depth": done})
 
 
 def replay(prop, path):
